@@ -36,8 +36,12 @@ def gen_case(seed, i, profile=None):
     r = rng(seed, "interp", i)
     recs = GI.gen_file(r)
     prof = profile or r.choice(["plain", "control", "vars"])
-    return {"recs": recs, "scan": G.scan_part(r, len(recs)), "match": GI.match_part(r, prof), "and": r.random() < 0.75,
+    case = {"recs": recs, "scan": G.scan_part(r, len(recs)), "match": GI.match_part(r, prof), "and": r.random() < 0.75,
             "profile": prof}
+    if prof == "vars" and r.random() < 0.2:
+        # the counters and variables are the same whichever lines are handed back (return-mode: no-matches)
+        case["nomatch"] = True
+    return case
 
 
 def run_both(case, method="collect", n=None):
@@ -47,7 +51,8 @@ def run_both(case, method="collect", n=None):
 
     recs = case["recs"]
     path = real_run.write_file("in.csv", recs)
-    settings = ([] if case["and"] else ["logic-mode: OR"]) + ([f"validation-mode: {case['vmode']}"] if case.get("vmode") else [])
+    settings = ([] if case["and"] else ["logic-mode: OR"]) + ([f"validation-mode: {case['vmode']}"] if case.get("vmode") else []) + \
+        (["return-mode: no-matches"] if case.get("nomatch") else [])
     mode = ("~ " + " ".join(settings) + " ~ ") if settings else ""
     text = f"{mode}${path}[{case['scan']}][{case['match']}]"
     out, p = real_run.run_single(text, method, n, policy=["collect"])
@@ -66,6 +71,8 @@ def run_both(case, method="collect", n=None):
     req = {"op": "interp", "scan": case["scan"], "recs": recs, "prog": prog, "and": case["and"], "method": method,
            "metadata": {"d": [[str(k), str(v)] for k, v in (p.metadata or {}).items() if isinstance(v, str)]},
            "static": {"d": [["identity", p.identity], ["delimiter", p.delimiter], ["quotechar", p.quotechar]]}}
+    if case.get("nomatch"):
+        req["cfg"] = {"cwnm": True}
     if n is not None:
         req["n"] = n
     m = driver.ask(req)
@@ -122,7 +129,7 @@ def judge_against_spec(case, out, prog):
     import spec_eval
 
     try:
-        sp = spec_eval.judge(prog, case["recs"], case["scan"], case["and"])
+        sp = spec_eval.judge(prog, case["recs"], case["scan"], case["and"], nomatch=bool(case.get("nomatch")))
     except spec_eval.OutOfClass as e:
         return [], set(), f"outside the documented core: {e}"
     except Exception as e:  # noqa: BLE001
@@ -169,7 +176,8 @@ def case_spec(case):
     res["triggers"] = []
     recs = case["recs"]
     path = real_run.write_file("in.csv", recs)
-    settings = ([] if case["and"] else ["logic-mode: OR"]) + ([f"validation-mode: {case['vmode']}"] if case.get("vmode") else [])
+    settings = ([] if case["and"] else ["logic-mode: OR"]) + ([f"validation-mode: {case['vmode']}"] if case.get("vmode") else []) + \
+        (["return-mode: no-matches"] if case.get("nomatch") else [])
     mode = ("~ " + " ".join(settings) + " ~ ") if settings else ""
     text = f"{mode}${path}[{case['scan']}][{case['match']}]"
     out, p = real_run.run_single(text, "collect", policy=["collect"])
